@@ -16,7 +16,7 @@ func jsonMarshal(v any) ([]byte, error)    { return json.Marshal(v) }
 // See /verif/DESIGN.md section 3.
 var properties = map[string]*Property{
 	"C01": {
-		Rules:      []string{"R-HINT", "R-CTXTYPE", "R-TABLES", "R-CTX-MIRROR", "R-NAMECMP", "R-CTX-KEYS", "R-LIFECYCLE", "R-MODE-ORDER", "R-PAYLOAD-MIRROR", "R-CHUNK-STATE"},
+		Rules:      []string{"R-HINT", "R-CTXTYPE", "R-TABLES", "R-CTX-MIRROR", "R-NAMECMP", "R-CTX-KEYS", "R-LIFECYCLE", "R-MODE-ORDER", "R-PAYLOAD-MIRROR", "R-CHUNK-STATE", "R-FIELD-WIDTH"},
 		Decided:    "the advisory size hint cannot steer which data is encoded (non-interference: hint-derived values reach no branch, loop bound, index or slice bound of the Writer data path); every context key is stored with the type every consumer asserts (no configuration accepted at construction can fail a type assertion at the first block); every codec name accepted at construction has a constructor case in every factory. Encode and decode tasks publish the same context keys (block size for the transform stage, post-transform size for the entropy stage) before creating their codecs. Every context key a codec constructor consults is published on the writing side and on both reading sides, so both build the same codec variant; an empty input still produces a framed stream (header before the empty-buffer return). In the block tasks the codecs are built from the task's transform/entropy type only after its last assignment.",
 		NotDecided: "byte equality of the round trip, codec correctness, buffer sizing, expansion bounds.",
 	},
@@ -46,23 +46,23 @@ var properties = map[string]*Property{
 		NotDecided: "Write/Read buffer-length independence (arithmetic); sink-side chunking.",
 	},
 	"C07": {
-		Rules:      []string{"R-TOKEN", "R-CANCEL", "R-POISON", "R-ERRSTATE", "R-SKIP-ORDER", "R-EOS-ONLY"},
-		Decided:    "exclusive and ordered access to the shared stream (dominance by the acquire edge, nothing after release); every task exit passes the token or cancels, including panics; waiters have a cancel exit; every task joins; a failure is reported by the enclosing call and stays reported.",
+		Rules:      []string{"R-TOKEN", "R-CANCEL", "R-POISON", "R-ERRSTATE", "R-SKIP-ORDER", "R-EOS-ONLY", "R-GOREC", "R-RESULT-SLOT"},
+		Decided:    "exclusive and ordered access to the shared stream (dominance by the acquire edge, nothing after release); every task exit passes the token or cancels, including panics; waiters have a cancel exit; every task joins; a failure is reported by the enclosing call and stays reported. Every task goroutine recovers at its entry (a panic in a task becomes a task error, not a crash). The slot a task reports into is an element of the very slice the parent scans after Wait, and that slice is not re-allocated (grown by append without reserved capacity) while tasks hold slots.",
 		NotDecided: "fairness/timing (\"promptly\"); memory-model subtleties beyond all accesses being sync/atomic.",
 	},
 	"C08": {
-		Rules:      []string{"R-PANIC-API", "R-IOERR", "R-EOS-ERR", "R-CLOSE-ORDER", "R-POISON", "R-ERRSTATE", "R-REFILL", "R-SKIP-ORDER", "R-CANCEL"},
-		Decided:    "no declared bitstream panic escapes the Writer/Reader API; no error of the underlying sink/source is dropped; a source error is never turned into a clean end of stream by the refill; closed flags are set only after successful flush/close; a failed write batch cannot be followed by a successful Close. A block is classified as skipped only after its payload was read, so a source failure inside a skipped block is still an error. The exit handlers turn every recovered panic – whatever its dynamic type – into a task error.",
+		Rules:      []string{"R-PANIC-API", "R-IOERR", "R-EOS-ERR", "R-CLOSE-ORDER", "R-POISON", "R-ERRSTATE", "R-REFILL", "R-SKIP-ORDER", "R-CANCEL", "R-RESULT-SLOT", "R-BS-PANIC"},
+		Decided:    "no declared bitstream panic escapes the Writer/Reader API; no error of the underlying sink/source is dropped; a source error is never turned into a clean end of stream by the refill; closed flags are set only after successful flush/close; a failed write batch cannot be followed by a successful Close. A block is classified as skipped only after its payload was read, so a source failure inside a skipped block is still an error. The exit handlers turn every recovered panic – whatever its dynamic type – into a task error. No error value of the shared bitstream (Close, HasMoreToRead) is discarded in the stream layer; the command-line tool looks at the error of every Read/Write/Close of the compressed stream and of its files on every path. No function of the bitstream package (tracing wrappers included) recovers a failure and then returns normally. Task results are reported into slots the parent actually reads.",
 		NotDecided: "counter restoration arithmetic in DefaultOutputBitStream.Close.",
 	},
 	"C09": {
-		Rules:      []string{"R-EOS-ONLY", "R-EOS-ERR", "R-CLOSE-ORDER", "R-PANIC-API", "R-ERRSTATE", "R-BATCH-ONLY", "R-EOF-AT-END", "R-CANCEL"},
-		Decided:    "the only clean exits of a decode task are cancel, end marker, range skip and normal completion; exhausting the source is an error (panic) that the recovering frames turn into a reported error; the writer emits the end marker on every successful close. The Reader's batch function reports success only after a batch of tasks ran (which ends only at the end marker) or after a cancellation; io.EOF is produced only behind that. The exit handler of a decode task turns every recovered panic, whatever its dynamic type, into a task error.",
+		Rules:      []string{"R-EOS-ONLY", "R-EOS-ERR", "R-CLOSE-ORDER", "R-PANIC-API", "R-ERRSTATE", "R-BATCH-ONLY", "R-EOF-AT-END", "R-CANCEL", "R-IOERR", "R-BS-PANIC"},
+		Decided:    "the only clean exits of a decode task are cancel, end marker, range skip and normal completion; exhausting the source is an error (panic) that the recovering frames turn into a reported error; the writer emits the end marker on every successful close. The Reader's batch function reports success only after a batch of tasks ran (which ends only at the end marker) or after a cancellation; io.EOF is produced only behind that. The exit handler of a decode task turns every recovered panic, whatever its dynamic type, into a task error. The end-of-source failure raised by the bitstream is not swallowed by any bitstream wrapper, a failed source read is not answered with io.EOF by discarding the error of HasMoreToRead, and the command-line tool cannot lose the error of Reader.Read between the call and the exit status.",
 		NotDecided: "bit-level behaviour of the partial last word in pull().",
 	},
 	"C10": {
-		Rules:      []string{"R-WIRE", "R-TABLES", "R-CKSUM"},
-		Decided:    "every curated wire constant of bitstream format 6 (magic, version, masks, hash primes and seeds, codec type codes, chunk sizes, coder tops, escape tokens, table digests) still has its frozen value; name/type tables are a bijection. The block checksum field is written (encode) and read and compared (decode) for every block of a checksummed stream, copy blocks included.",
+		Rules:      []string{"R-WIRE", "R-TABLES", "R-CKSUM", "R-SORT-TIES"},
+		Decided:    "every curated wire constant of bitstream format 6 (magic, version, masks, hash primes and seeds, codec type codes, chunk sizes, coder tops, escape tokens, table digests) still has its frozen value; name/type tables are a bijection. The block checksum field is written (encode) and read and compared (decode) for every block of a checksummed stream, copy blocks included. Codec code leaves no order of equal keys to an unstable library sort (only keys are transmitted, so the order of ties is format).",
 		NotDecided: "algorithmic changes that keep every constant; tables computed at init; encoder-only changes.",
 	},
 	"C11": {
@@ -71,13 +71,13 @@ var properties = map[string]*Property{
 		NotDecided: "mapping of block k to byte offsets; cursor compaction arithmetic.",
 	},
 	"C12": {
-		Rules:      []string{"R-FACTORY-PAIR", "R-WIRE", "R-PAYLOAD-MIRROR", "R-CHUNK-STATE"},
-		Decided:    "for each entropy code the encoder and decoder factories build the same codec family with the same constant arguments and the same predictor constructor; shared constants of the entropy package keep their format-6 values. For the static-model codecs (Huffman, ANS, Range) encoder and decoder agree, for every number of symbols and order, on whether a chunk carries payload bits after its statistics header (finite decision table compared on both sides). Encoder and decoder carry the same coder state (values derived from receiver fields) across the chunk loop: what one side re-initialises per chunk the other does too.",
+		Rules:      []string{"R-FACTORY-PAIR", "R-WIRE", "R-PAYLOAD-MIRROR", "R-CHUNK-STATE", "R-SORT-TIES"},
+		Decided:    "for each entropy code the encoder and decoder factories build the same codec family with the same constant arguments and the same predictor constructor; shared constants of the entropy package keep their format-6 values. For the static-model codecs (Huffman, ANS, Range) encoder and decoder agree, for every number of symbols and order, on whether a chunk carries payload bits after its statistics header (finite decision table compared on both sides). Encoder and decoder carry the same coder state (values derived from receiver fields) across the chunk loop: what one side re-initialises per chunk the other does too. No unstable library sort with a single-key order function in codec code.",
 		NotDecided: "arithmetic-coder exactness, bit-exact consumption.",
 	},
 	"C13": {
-		Rules:      []string{"R-SRC-RO", "R-SEQ-REVERT"},
-		Decided:    "no write path to the src argument exists in any Forward implementation or anything it calls, so a declining transform leaves its input unmodified; the sequence restores its state on a failed stage.",
+		Rules:      []string{"R-SRC-RO", "R-SEQ-REVERT", "R-PACK-WIDTH"},
+		Decided:    "no write path to the src argument exists in any Forward implementation or anything it calls, so a declining transform leaves its input unmodified; the sequence restores its state on a failed stage. A position packed into the upper bits of an int32 by an inverse transform (int32(i<<k)|v) fits for every size under which that routine is selected (constant guard at the call site, interval argument).",
 		NotDecided: "in-bounds output and inverse exactness (numeric).",
 	},
 	"C14": {
@@ -102,8 +102,8 @@ var properties = map[string]*Property{
 		NotDecided: "disjointness of dst ranges of BWT workers (arithmetic); user listeners.",
 	},
 	"C19": {
-		Rules:      []string{"R-EXCL", "R-FS-WHO", "R-REMOVE-ORDER", "R-LEVELS", "R-CLI-REC"},
-		Decided:    "never overwrite without force (O_EXCL unless overwrite edge), same-file test before truncation, no other file-system mutation in the module, source removed only after complete error-free close (dominance, hence at every kill point), level table well-formed.",
+		Rules:      []string{"R-EXCL", "R-FS-WHO", "R-REMOVE-ORDER", "R-LEVELS", "R-CLI-REC", "R-IOERR", "R-APP-OWN"},
+		Decided:    "never overwrite without force (O_EXCL unless overwrite edge), same-file test before truncation, no other file-system mutation in the module, source removed only after complete error-free close (dominance, hence at every kill point), level table well-formed. The tool looks at the error of every Read/Write/Close it issues on the compressed stream and on the files, on every path (an error cannot be overwritten before it is tested). Per-file tasks queued for concurrent workers share no slice that a task writes into.",
 		NotDecided: "tree round trip, exit statuses.",
 	},
 }
